@@ -55,6 +55,7 @@ func checkC02(ctx *Ctx, r *Report) {
 	c02GoImportInScope(ctx, r)
 	c02GoBareTypeNames(ctx, r)
 	c02GoAliasConstructor(ctx, r)
+	c02GoRuntimeDefines(ctx, r)
 }
 
 // kindConsts: the constants of ast.Kind / ast.ScalarKind.
@@ -2296,4 +2297,93 @@ func c02GoAliasConstructor(ctx *Ctx, r *Report) {
 	})
 	r.Count("alias branches of the Go constructor", n)
 	r.Floor("alias branches of the Go constructor", 1)
+}
+
+// c02GoRuntimeDefines: the Go jenny writes calls into its own runtime package (`cog.X`). The runtime jenny emits
+// that package (templates/runtime/*.tmpl and the literal files of runtime.go): every `cog.X` a template or the jenny
+// writes has to be defined there, or the generated module does not type-check. Functions that are only reached for
+// composable slots are supplied with the variants (extra templates) and are listed with that reason.
+var c02GoRuntimeExternal = map[string]string{
+	"StrictUnmarshalDataquery": "only written for composable slots (dataquery variant), whose runtime comes with the variants' extra templates",
+	"UnmarshalDataquery":       "same",
+	"UnmarshalDataqueryArray":  "same",
+	"ConfigForPanelcfgVariant": "same",
+}
+
+func c02GoRuntimeDefines(ctx *Ctx, r *Report) {
+	p := ctx.Pkg("internal/jennies/golang")
+	ts, err := loadTemplates(ctx, "golang")
+	if p == nil || err != nil {
+		r.Undecided("golang jenny / templates not loaded: %v", err)
+		return
+	}
+	use := regexp.MustCompile(`\bcog\.([A-Z][A-Za-z0-9]*)`)
+	def := regexp.MustCompile(`(?m)^(?:func|type)\s+(?:\([^)]*\)\s*)?([A-Z][A-Za-z0-9]*)`)
+	defined := map[string]bool{}
+	used := map[string]string{}
+	for _, name := range ts.names() {
+		f := ts.file[name]
+		walkTmpl(ts.trees[name].Root, func(n parse.Node) bool {
+			t, ok := n.(*parse.TextNode)
+			if !ok {
+				return true
+			}
+			if strings.Contains(f, "/templates/runtime/") {
+				for _, m := range def.FindAllStringSubmatch(string(t.Text), -1) {
+					defined[m[1]] = true
+				}
+				return true
+			}
+			for _, m := range use.FindAllStringSubmatch(string(t.Text), -1) {
+				if _, ok := used[m[1]]; !ok {
+					used[m[1]] = ts.posOf(ctx, name, t)
+				}
+			}
+			return true
+		})
+	}
+	// string literals of the jenny: definitions in runtime.go, uses elsewhere
+	for _, file := range p.Syntax {
+		fname := ctx.Fset.Position(file.Pos()).Filename
+		ast.Inspect(file, func(m ast.Node) bool {
+			lit, ok := m.(*ast.BasicLit)
+			if !ok || lit.Kind != token.STRING {
+				return true
+			}
+			tv, ok := p.TypesInfo.Types[lit]
+			if !ok || tv.Value == nil || tv.Value.Kind() != constant.String {
+				return true
+			}
+			v := constant.StringVal(tv.Value)
+			if strings.HasSuffix(fname, "/runtime.go") {
+				for _, mm := range def.FindAllStringSubmatch(v, -1) {
+					defined[mm[1]] = true
+				}
+				return true
+			}
+			for _, mm := range use.FindAllStringSubmatch(v, -1) {
+				if _, ok := used[mm[1]]; !ok {
+					used[mm[1]] = ctx.Pos(lit.Pos())
+				}
+			}
+			return true
+		})
+	}
+	var names []string
+	for k := range used {
+		names = append(names, k)
+	}
+	sort.Strings(names)
+	for _, k := range names {
+		if why, ok := c02GoRuntimeExternal[k]; ok {
+			r.OK("skeleton/go-runtime-defines", "golang runtime defines cog."+k, token.NoPos, "reviewed: "+why)
+			continue
+		}
+		r.Check(defined[k], "skeleton/go-runtime-defines", "golang runtime defines cog."+k, token.NoPos, used[k]+": defined by the runtime jenny",
+			used[k]+": the Go jenny writes cog."+k+", which the Go runtime jenny never emits (templates/runtime, runtime.go): the generated module does not type-check — `undefined: cog."+k+"`")
+	}
+	r.Count("runtime symbols written by the Go jenny", len(names))
+	r.Count("runtime symbols defined by the Go runtime jenny", len(defined))
+	r.Floor("runtime symbols written by the Go jenny", 4)
+	r.Floor("runtime symbols defined by the Go runtime jenny", 4)
 }
